@@ -205,7 +205,7 @@ def run(ctx):
         sw = [c for c in wr.calls if c.name == "swap_buffer"]
         apb = [c for c in wr.calls if c.name == "append_buffer"]
         snd = [c for c in wr.calls if c.name == "send_commands"]
-        if len(sw) != 1 or len(apb) != 1 or len(snd) != 2:
+        if len(sw) != 1 or len(apb) != 1 or len(snd) < 1:
             raise AnchorMissing("CommandOutput::write: swap_buffer/append_buffer/send_commands sites (%d/%d/%d)" % (len(sw), len(apb), len(snd)))
         clears = [c for c in wr.calls if c.name == "clear" and describe_operand(wr, c.args[0]).endswith("writer<Some>.0.buffer") or (c.name == "clear" and ".buffer" in describe_operand(wr, c.args[0]) and "writer" in describe_operand(wr, c.args[0]))]
         r.check(any(wr.dominates(c.block, apb[0].block) and not wr.reaches(apb[0].block, {c.block}) for c in clears), "write/multi-record/send-buffer-cleared", apb[0].loc(),
@@ -256,7 +256,12 @@ def run(ctx):
                 return False
             if rd.resolve(pl).root in NF:
                 return True
-            return any((s_[0] == "local" and s_[1] in NF) or (s_[0] == "field" and s_[1].root in NF) for s_ in rd.sources(["c", pl]))
+            # (also through a call that reads the cell: `needs_flush.is_some_and(|pending| pending != *id)`)
+            srcs_ = rd.sources(["c", pl], stop_at_calls=False)
+            READS = ("is_some_and", "is_some", "is_none", "is_none_or", "map_or", "eq", "ne", "as_ref", "copied", "cloned", "filter", "contains", "unwrap_or", "map", "and_then", "zip", "unwrap_or_default")
+            if any(s_[0] == "call" and (s_[1].via_name or s_[1].name) in READS and any(op_place(a_) is not None and (rd.copy_root(a_) in NF or rd.resolve(op_place(a_)).root in NF) for a_ in s_[1].args) for s_ in srcs_):
+                return True
+            return any((s_[0] == "local" and s_[1] in NF) or (s_[0] == "field" and s_[1].root in NF) for s_ in srcs_)
         sw = []
         for c in fls:
             if not (gm and rd.reaches(c.block, {gm[0].block}) and not rd.dominates(gm[0].block, c.block)):
